@@ -134,11 +134,16 @@ fn main() {
                 // quick tier: the four Rust variants that only change ownership / std / type
                 // merging / map type are exercised on the corpus only (all variants × all worlds
                 // in the thorough tier)
-                if !thorough
+                if (!thorough || w.id.starts_with("seq/"))
                     && b == Backend::Rust
                     && matches!(w.src, Source::Inline(_))
                     && !matches!(variant, "default" | "async" | "borrowed")
                 {
+                    continue;
+                }
+                // the payload-sequence band only varies future/stream positions: one
+                // non-async-forcing variant per backend plus `--async=all`
+                if w.id.starts_with("seq/") && matches!(variant, "borrowed" | "no-sig-flattening" | "autodrop") {
                     continue;
                 }
                 items.push(Item { w: wi, b, variant, args });
@@ -301,6 +306,12 @@ fn main() {
             "positions": worlds::POSITIONS.iter().map(|p| format!("{p:?}")).collect::<Vec<_>>(),
             "asyncness": ["sync", "async"],
             "function_pairs_thorough_only": worlds::PAIR_SHAPES,
+            "payload_sequence_band": {
+                "alphabet": worlds::PAYLOAD_ALPHABET,
+                "quick": "all 64 sequences of length 3 x splits {1,2} params (rest = result / result tuple) x {interface imported+exported, world-level imported+exported}, sync; the 64 length-4 sequences x y x z with 2 params at interface level; variants default and --async=all",
+                "thorough": "all 64 length-3 sequences x every split x {IfaceBoth, WorldBoth, resource method imported, resource method exported} x sync/async; all 256 length-4 sequences x every split at interface level",
+                "worlds": all_worlds.iter().filter(|w| w.id.starts_with("seq/")).count(),
+            },
             "resource_member_sets": worlds::RES_MEMBERS.iter().map(|s| s.0).collect::<Vec<_>>(),
             "namings": if run.thorough() { "plain|kebab x none|@1.2.3|@0.2.0-rc.1" } else { "kebab@1.2.3 for all, plain unversioned for str/futstr/handles and all resource/combined worlds" },
             "enumerated_worlds": n_enum,
